@@ -421,7 +421,8 @@ func (e *issuerEnv) authenticator(c cfgSpec) *oidc.RemoteOidcAuthenticator {
 
 // jvSpec is one JSON claim value.
 //
-//	T: "s" string S | "n" number N | "r" number now+N | "l" array of strings L |
+//	T: "m"/"mu"/"ml"/"mt" the main issuer (as is / upper-cased / in a list / trailing slash toggled) |
+//	   "s" string S | "n" number N | "r" number now+N | "l" array of strings L |
 //	   "b" array with a non-string element (L then a number) | "null" | "bool" | "obj"
 type jvSpec struct {
 	T string   `json:"t"`
@@ -452,8 +453,19 @@ var registeredAlgs = map[string]bool{
 
 func b64(b []byte) string { return base64.RawURLEncoding.EncodeToString(b) }
 
-func (v jvSpec) render(now int64) (string, rec.V) {
+func (v jvSpec) render(now int64, main string) (string, rec.V) {
 	switch v.T {
+	case "m": // the main issuer of the configuration (the loopback URL changes from run to run)
+		return jvSpec{T: "s", S: main}.render(now, main)
+	case "mu":
+		return jvSpec{T: "s", S: strings.ToUpper(main)}.render(now, main)
+	case "ml":
+		return jvSpec{T: "l", L: []string{main}}.render(now, main)
+	case "mt": // trailing slash toggled
+		if strings.HasSuffix(main, "/") {
+			return jvSpec{T: "s", S: strings.TrimSuffix(main, "/")}.render(now, main)
+		}
+		return jvSpec{T: "s", S: main + "/"}.render(now, main)
 	case "s":
 		j, _ := json.Marshal(v.S)
 		return string(j), rec.L(rec.I(1), rec.S(v.S))
@@ -484,12 +496,12 @@ func (v jvSpec) render(now int64) (string, rec.V) {
 	return "null", rec.L(rec.I(5))
 }
 
-func renderClaims(cs []claimSpec, now int64) (string, rec.V) {
+func renderClaims(cs []claimSpec, now int64, main string) (string, rec.V) {
 	parts := make([]string, len(cs))
 	vs := make([]rec.V, len(cs))
 	for i, c := range cs {
 		k, _ := json.Marshal(c.K)
-		j, m := c.V.render(now)
+		j, m := c.V.render(now, main)
 		parts[i] = string(k) + ":" + j
 		vs[i] = rec.L(rec.S(c.K), m)
 	}
@@ -497,7 +509,7 @@ func renderClaims(cs []claimSpec, now int64) (string, rec.V) {
 }
 
 // build returns the token string and the structure the oracle's parse_jwt maps it to.
-func (e *issuerEnv) build(t tokSpec, now int64) (string, rec.V) {
+func (e *issuerEnv) build(t tokSpec, now int64, main string) (string, rec.V) {
 	malformed := rec.L(rec.I(0))
 	switch t.Malformed {
 	case 1:
@@ -537,7 +549,7 @@ func (e *issuerEnv) build(t tokSpec, now int64) (string, rec.V) {
 		kid = rec.L(rec.I(1))
 	}
 	header := "{" + strings.Join(hparts, ",") + "}"
-	payload, mclaims := renderClaims(t.Claims, now)
+	payload, mclaims := renderClaims(t.Claims, now, main)
 	signKey := kidKey
 	if signKey == 0 {
 		signKey = 1
@@ -627,7 +639,7 @@ func runOidc(w *rec.Writer, e *issuerEnv, c oidcCase) {
 	aud, _ := hex.DecodeString(c.Cfg.Audience)
 	a := e.authenticator(c.Cfg)
 	now := time.Now().Unix()
-	tok, structure := e.build(c.Tok, now)
+	tok, structure := e.build(c.Tok, now, e.mainIssuer(c.Cfg))
 	md, vals := headerValues(c.Hdr, tok)
 	o := observed{class: clsCtor}
 	if a != nil {
@@ -670,10 +682,9 @@ var (
 )
 
 func (e *issuerEnv) issValue(c cfgSpec, kind int) *jvSpec {
-	main := e.mainIssuer(c)
 	switch kind {
 	case 0:
-		return &jvSpec{T: "s", S: main}
+		return &jvSpec{T: "m"}
 	case 1: // an alias (of the configuration if it has one, else of another configuration)
 		al := unhexAll(c.Aliases)
 		if len(al) > 0 && al[len(al)-1] != "" {
@@ -689,14 +700,11 @@ func (e *issuerEnv) issValue(c cfgSpec, kind int) *jvSpec {
 	case 5:
 		return &jvSpec{T: "n", N: 7}
 	case 6:
-		return &jvSpec{T: "l", L: []string{main}}
+		return &jvSpec{T: "ml"}
 	case 7:
-		if strings.HasSuffix(main, "/") {
-			return &jvSpec{T: "s", S: strings.TrimSuffix(main, "/")}
-		}
-		return &jvSpec{T: "s", S: main + "/"}
+		return &jvSpec{T: "mt"}
 	case 8:
-		return &jvSpec{T: "s", S: strings.ToUpper(main)}
+		return &jvSpec{T: "mu"}
 	case 9:
 		return &jvSpec{T: "null"}
 	}
@@ -1113,7 +1121,7 @@ func runOidcHist(e *issuerEnv, h oidcHist) ([]oidcStepResult, error) {
 	toks := make([]string, len(h.Toks))
 	structs := make([]rec.V, len(h.Toks))
 	for i, t := range h.Toks {
-		toks[i], structs[i] = e.build(t, start)
+		toks[i], structs[i] = e.build(t, start, e.mainIssuer(h.Cfg))
 	}
 	var out []oidcStepResult
 	for _, st := range h.Steps {
